@@ -11,19 +11,20 @@ theorem mapOut_with_unread {α β} (o : CallOut α) (f : α → Except Exc β) (
 theorem call_suffix (cfg : Cfg) (ie so : Bool) (c : Call) (sc : Script) :
     (call cfg ie so c sc).unread <:+ sc.evs := by
   rcases shape cfg c with ⟨res, hcall⟩ | ⟨verb, cmds, nr, f, hcall, -, -, -⟩ |
-    ⟨cmds, nr, tok, f, hcall, -, -, -, -⟩ | ⟨kind, cmd, wanted, g, hcall, -⟩ | hq
+    ⟨cmds, nr, tok, f, hcall, -, -, -, -⟩ | ⟨kind, cmd, wanted, g, hcall, -⟩ | hq | ⟨gr, hsd⟩
   · rw [hcall]; exact List.suffix_refl _
   · rw [hcall, mapOut_unread]; exact exchangeStore_suffix ..
   · rw [hcall, mapOut_unread]; exact exchangeMisc_suffix ..
   · rw [hcall, mapOut_unread]; exact exchangeFetch_suffix ..
   · subst hq; simp only [call]; exact exchangeMisc_suffix ..
+  · subst hsd; rw [call_shutdown, swallowClose_unread, mapOut_unread]; exact exchangeMisc_suffix ..
 
 theorem call_open_result (cfg : Cfg) (ie so : Bool) (c : Call) (sc : Script)
     (hsent : (call cfg ie so c sc).sent ≠ none) (hopen : (call cfg ie so c sc).sockOpen = true) :
     (∃ r, (call cfg ie so c sc).res = .ok r) ∨
     (∃ e, (call cfg ie so c sc).res = .error e ∧ postProcessingError c e) := by
   rcases shape cfg c with ⟨res, hcall⟩ | ⟨verb, cmds, nr, f, hcall, -, -, hpost⟩ |
-    ⟨cmds, nr, tok, f, hcall, -, -, -, hpost⟩ | ⟨kind, cmd, wanted, g, hcall, -⟩ | hq
+    ⟨cmds, nr, tok, f, hcall, -, -, -, hpost⟩ | ⟨kind, cmd, wanted, g, hcall, -⟩ | hq | ⟨gr, hsd⟩
   · simp [hcall] at hsent
   · rw [hcall, mapOut_sockOpen] at hopen
     obtain ⟨r, hr, hlen, -, -⟩ := exchangeStore_open _ _ _ _ _ hopen
@@ -42,13 +43,17 @@ theorem call_open_result (cfg : Cfg) (ie so : Bool) (c : Call) (sc : Script)
     rw [hcall, mapOut_res_ok _ _ hr]
     left; exact ⟨_, rfl⟩
   · subst hq; simp [call] at hopen
+  · subst hsd
+    rw [call_shutdown, swallowClose_sockOpen, mapOut_sockOpen] at hopen
+    obtain ⟨r, hr, -, -, -⟩ := exchangeMisc_open _ _ _ _ _ hopen
+    left; exact ⟨.none, by rw [call_shutdown]; exact swallowClose_res_ok _ (by rw [mapOut_res_ok _ _ hr])⟩
 
 theorem call_clean (cfg : Cfg) (ie so : Bool) (c : Call) (sc : Script)
     (hwf : WellFramed cfg c sc.evs) (hopen : (call cfg ie so c sc).sockOpen = true) :
     Drained (call cfg ie so c sc).unread := by
   obtain ⟨hc, hm⟩ := hwf
   rcases shape cfg c with ⟨res, hcall⟩ | ⟨verb, cmds, nr, f, hcall, -, howed, -⟩ |
-    ⟨cmds, nr, tok, f, hcall, -, howed, hlen, -⟩ | ⟨kind, cmd, wanted, g, hcall, howed⟩ | hq
+    ⟨cmds, nr, tok, f, hcall, -, howed, hlen, -⟩ | ⟨kind, cmd, wanted, g, hcall, howed⟩ | hq | ⟨gr, hsd⟩
   · have : owed cfg c = .nothing := by simp [owed, sends_of_silent hcall]
     rw [this] at hm
     rw [hcall]; exact ⟨hm, hc⟩
@@ -74,13 +79,18 @@ theorem call_clean (cfg : Cfg) (ie so : Bool) (c : Call) (sc : Script)
     rw [howed] at hm
     exact exchangeFetch_framed _ _ _ _ _ _ hc hm hopen
   · subst hq; simp [call] at hopen
+  · subst hsd
+    rw [call_shutdown, swallowClose_sockOpen, mapOut_sockOpen] at hopen
+    rw [call_shutdown, swallowClose_unread, mapOut_unread]
+    rw [owed_shutdown] at hm
+    exact exchangeMisc_framed _ _ _ _ _ hc hm hopen
 
 theorem call_noreply (cfg : Cfg) (ie so : Bool) (c : Call) (sc : Script) (hn : owed cfg c = .nothing)
     (evs' : List Ev) :
     (call cfg ie so c sc).unread = sc.evs ∧
     call cfg ie so c { sc with evs := evs' } = { call cfg ie so c sc with unread := evs' } := by
   rcases shape cfg c with ⟨res, hcall⟩ | ⟨verb, cmds, nr, f, hcall, -, howed, -⟩ |
-    ⟨cmds, nr, tok, f, hcall, -, howed, -, -⟩ | ⟨kind, cmd, wanted, g, hcall, howed⟩ | hq
+    ⟨cmds, nr, tok, f, hcall, -, howed, -, -⟩ | ⟨kind, cmd, wanted, g, hcall, howed⟩ | hq | ⟨gr, hsd⟩
   · simp [hcall]
   · cases nr with
     | false => simp [howed] at hn
@@ -96,12 +106,13 @@ theorem call_noreply (cfg : Cfg) (ie so : Bool) (c : Call) (sc : Script) (hn : o
   · subst hq
     have := exchangeMisc_noreply [quitCmd] none so sc evs'
     simp only [call, this.1, this.2, and_self]
+  · subst hsd; simp [owed_shutdown] at hn
 
 theorem call_not_sent (cfg : Cfg) (ie so : Bool) (c : Call) (sc : Script)
     (h : (call cfg ie so c sc).sent = none) :
     (call cfg ie so c sc).unread = sc.evs ∧ ((call cfg ie so c sc).sockOpen = true → so = true) := by
   rcases shape cfg c with ⟨res, hcall⟩ | ⟨verb, cmds, nr, f, hcall, -, -, -⟩ |
-    ⟨cmds, nr, tok, f, hcall, -, -, -, -⟩ | ⟨kind, cmd, wanted, g, hcall, -⟩ | hq
+    ⟨cmds, nr, tok, f, hcall, -, -, -, -⟩ | ⟨kind, cmd, wanted, g, hcall, -⟩ | hq | ⟨gr, hsd⟩
   · simp [hcall]
   · rw [hcall, mapOut_sent] at h
     have := exchangeStore_not_sent _ _ _ _ _ h
@@ -116,4 +127,8 @@ theorem call_not_sent (cfg : Cfg) (ie so : Bool) (c : Call) (sc : Script)
     simp only [call] at h ⊢
     have := exchangeMisc_not_sent _ _ _ _ _ h
     simp [this.1]
+  · subst hsd
+    rw [call_shutdown, swallowClose_sent, mapOut_sent] at h
+    have := exchangeMisc_not_sent _ _ _ _ _ h
+    simp [call_shutdown, this.1, this.2]
 end Client
